@@ -4,7 +4,7 @@ PROP = dict(
     gen=["WalletConsts", "TlbTypes"],
     # the model IS the specification for these ops: the address is defined as the hash of the state-init laid out as
     # the TON schema says, the send parameters and the confirmation verdict are what the property states
-    spec_ops=("w.addr", "w.gwa", "w.gsi", "w.send", "w.ctx", "cell.hash", "seed.key", "prim.sha512", "prim.hmac512", "prim.pbkdf2_512"),
+    spec_ops=("w.addr", "w.gwa", "w.gsi", "w.send", "w.sendc", "w.ctx", "cell.hash", "seed.key", "prim.sha512", "prim.hmac512", "prim.pbkdf2_512"),
     rule="addresses: every supported version x random Ed25519 keys x workchain in {default,0,-1,1,127,-128,255} x "
          "sub-wallet id in {default,0,2^32-1,698983191(+-1),random} x network id in {default,-239,-3,0,int32 bounds,random} "
          "through New().GetAddress, GenerateWalletAddress, GenerateStateInit; unsupported versions and odd key lengths; "
@@ -13,6 +13,8 @@ PROP = dict(
          "SendMessage errors, 0..max+50 messages, confirmation histories (never, advance at poll 1..5, only after the "
          "deadline, errors interleaved, error answers carrying larger numbers) with 300 ms real waits, plus "
          "scheduling-dependent histories (advance at poll 1..12) judged against the polls actually served. "
+         "context cancellation before call 0,1,2,3,4,6,11,13 of a send against a context-honouring blockchain (model comparison "
+         "where scheduling cannot matter, direct oracle otherwise); "
          "mnemonics: random 12..24-word texts (255/256 rejected by the version byte), accepted seeds found by an independent "
          "composition and their one-character / eleven-word variants, field-counting oddities (spaces only, tabs, double "
          "spaces, words outside the list), RandomSeed draws; "
